@@ -1,1 +1,50 @@
-int main(){return 0;}
+// REPLAY adapter for unit json_scan: feeds the verifier's input to the REAL JsonParser::_skipWhitespace/_parseNull/_parseBool/_parseNumber
+// (private members reached with -fno-access-control) and evaluates the contract clauses natively against an RFC 8259 reference.
+#include "iora/parsers/json.hpp"
+#include "replay_io.h"
+#include <cstring>
+using namespace iora::parsers;
+static long refNumberEnd(const std::string &t, size_t p) {
+  size_t n = t.size(); auto dig = [&](size_t k) { return k < n && t[k] >= '0' && t[k] <= '9'; };
+  if (p < n && t[p] == '-') p++;
+  if (!dig(p)) return -1;
+  if (t[p] == '0') p++; else while (dig(p)) p++;
+  if (p < n && t[p] == '.') { p++; if (!dig(p)) return -1; while (dig(p)) p++; }
+  if (p < n && (t[p] == 'e' || t[p] == 'E')) { p++; if (p < n && (t[p] == '+' || t[p] == '-')) p++; if (!dig(p)) return -1; while (dig(p)) p++; }
+  return (long)p;
+}
+int main(int argc, char **argv) {
+  auto in = replay_io::load(argv[1]);
+  std::vector<uint8_t> d = replay_io::bytes(in["IN"]);
+  size_t n = in.count("IN_N") ? replay_io::u64(in["IN_N"]) : d.size();
+  d.resize(n, 0);
+  size_t pos = in.count("POS") ? replay_io::u64(in["POS"]) : 0;
+  if (pos > n) pos = n;
+  // exact-size heap copy so that ASan sees any read past the end of the view
+  char *buf = new char[n ? n : 1]; if (n) memcpy(buf, d.data(), n);
+  std::string t(buf, n);
+  auto isWs = [&](size_t k) { return t[k] == ' ' || t[k] == '\t' || t[k] == '\n' || t[k] == '\r'; };
+  { JsonParser p(std::string_view(buf, n), ParseLimits{}); p._pos = pos; p._skipWhitespace();
+    if (p._pos < pos || p._pos > n) replay_io::fail("W1 cursor outside the text after _skipWhitespace");
+    if (p._pos < n && isWs(p._pos)) replay_io::fail("W2 RFC 8259 white space not skipped"); }
+  { JsonParser p(std::string_view(buf, n), ParseLimits{}); p._pos = pos; Json o; bool ok = p._parseNull(o);
+    bool lit = n - pos >= 4 && t.compare(pos, 4, "null") == 0;
+    if (ok != lit) replay_io::fail("L1 null accepted <=> exact bytes");
+    if (p._pos != pos + (ok ? 4 : 0) || p._pos > n) replay_io::fail("L2/L3/L4 cursor after _parseNull"); }
+  { JsonParser p(std::string_view(buf, n), ParseLimits{}); p._pos = pos; Json o; bool ok = p._parseBool(o);
+    bool lt = n - pos >= 4 && t.compare(pos, 4, "true") == 0, lf = n - pos >= 5 && t.compare(pos, 5, "false") == 0;
+    if (ok != (lt || lf)) replay_io::fail("B1 bool accepted <=> exact bytes");
+    if (p._pos != pos + (lt ? 4 : lf ? 5 : 0) || p._pos > n) replay_io::fail("B2-B5 cursor after _parseBool");
+    if (ok && (!o.isBool() || o.getBool() != lt)) replay_io::fail("B2/B3 value"); }
+  if (pos < n) { JsonParser p(std::string_view(buf, n), ParseLimits{}); p._pos = pos; Json o; bool ok = p._parseNumber(o);
+    if (p._pos < pos || p._pos > n) replay_io::fail("N1 cursor outside the text after _parseNumber");
+    if (ok && p._pos == pos) replay_io::fail("N2 number accepted without consuming input");
+    long e = refNumberEnd(t, pos);
+    bool delim = e >= 0 && ((size_t)e == n || isWs(e) || t[e] == ',' || t[e] == ']' || t[e] == '}');
+    if (delim && !ok) replay_io::fail("A1 RFC 8259 number not accepted");
+    if (delim && p._pos != (size_t)e) replay_io::fail("A2 RFC 8259 number not delimited exactly");
+    if (ok && !((o.isInt() || o.isDouble()))) replay_io::fail("N4 value is not a number"); }
+  delete[] buf;
+  replay_io::ok("contract clauses hold on this input");
+  return 0;
+}
